@@ -1552,6 +1552,10 @@ func (fx *fnExec) storeTarget(x *ssa.Store) string {
 	}
 	switch r := cur.(type) {
 	case *ssa.Alloc:
+		if !isCellAlloc(r) {
+			// an escaping variable lives in the heap of its type (the same name runStoreHooks gives the store)
+			return "F." + typeKey(r.Type().Underlying().(*types.Pointer).Elem()) + suffix
+		}
 		return r.Comment + suffix
 	case *ssa.FreeVar:
 		return r.Name() + suffix
@@ -1561,6 +1565,12 @@ func (fx *fnExec) storeTarget(x *ssa.Store) string {
 	// a field of an object reached through a pointer value: named like its heap
 	if pt, ok := cur.Type().Underlying().(*types.Pointer); ok && suffix != "" {
 		return "F." + typeKey(pt.Elem()) + suffix
+	}
+	// a whole object written through a pointer value (*p = v): named like the heap of the pointed-to type
+	if pt, ok := cur.Type().Underlying().(*types.Pointer); ok && suffix == "" {
+		if _, isIdx := cur.(*ssa.IndexAddr); !isIdx {
+			return "F." + typeKey(pt.Elem())
+		}
 	}
 	// an element of a slice: named like the element heap
 	if ia, ok := cur.(*ssa.IndexAddr); ok && suffix == "" {
